@@ -1267,11 +1267,14 @@ class IndexHierarchy(IndexBase):
         if pos is not None:
             if pos == 0:
                 return self._levels.index.values
-            return np.unique(
+            post = np.unique(
                     concat_resolved(
                     list(self._levels.index_array_at_depth(pos))
                     ))
-        return np.unique(array2d_to_array1d(self.values_at_depth(sel)))
+        else:
+            post = np.unique(array2d_to_array1d(self.values_at_depth(sel)))
+        post.flags.writeable = False
+        return post
 
     @doc_inject()
     def equals(self,
@@ -1359,7 +1362,9 @@ class IndexHierarchy(IndexBase):
                 matches.append(as_tuple)
 
         if not matches:
-            return np.full(self.__len__(), False, dtype=bool)
+            post = np.full(self.__len__(), False, dtype=bool)
+            post.flags.writeable = False
+            return post
 
         return isin(self.flat().values, matches)
 
